@@ -950,6 +950,11 @@ def h_dedup(I, st, fr, e, c, a):
     return [(st, UNIT, None)]
 
 
+def h_to_owned(I, st, fr, e, c, a):
+    """to_owned(): an owned copy of the same value (a slice's Vec, a clone otherwise)."""
+    return [(st, deref(I, st, a[0]), None)]
+
+
 def h_capacity_noop(I, st, fr, e, c, a):
     """reserve / shrink_to_fit: capacity only, the contents are untouched."""
     return [(st, UNIT, None)]
@@ -1598,6 +1603,8 @@ TABLE = {
     "std::iter::Iterator::cloned": h_seq_identity,
     "std::iter::Iterator::copied": h_seq_identity,
     "std::slice::<impl [T]>::to_vec": h_seq_identity,
+    "std::borrow::ToOwned::to_owned": h_to_owned,
+    "std::iter::Iterator::copied": h_seq_identity,
     "std::vec::Vec::<T>::new": h_vec_new,
     "std::vec::Vec::<T>::with_capacity": h_vec_new,
     "std::vec::from_elem": h_from_elem,
